@@ -241,7 +241,9 @@ def check_case(ctx, prop, case, via, contracts, index=0):
             if desc.get('origin') == 'harness':
                 rec.inconclusive_because('harness exception while classifying: {}'.format(desc))
                 return
-            if prop == 'C01':
+            if prop == 'C01' and (case['sthr'] <= 0 or case['jthr'] <= 0):
+                rec.hit('classification-raised-with-a-zero-threshold (outside the positive thresholds of C01)')
+            elif prop == 'C01':
                 rec.violation(exception_key(desc), {'exception': desc, 'via': via}, case, 'classify')
             else:
                 rec.hit('unobservable-classification-raised')
@@ -297,6 +299,8 @@ def run_corpus(ctx, prop, n_total, n_cli=0, n_subprocess=0, field_grid=None):
             gi = i * ctx.nshards + ctx.shard
             case = gen_series.gen_indexed(rng, gi)
             via = 'function'
+            if case.get('force') == 'threshold_zero' and ncli and (i // len(gen_series.FEATURES)) % 2 == 0:
+                via = 'cli'
             if i < nsub:
                 via = 'subprocess'
             elif i < nsub + ncli:
